@@ -204,3 +204,96 @@ Theorem link_user_reconfig_refines_SReconfig : forall opt s tid c s' out l,
   CfgQuorum.near (voters_of (st_latest s)) (voters_of c).
 Proof. exact user_reconfig_refines_SReconfig. Qed.
 Print Assumptions link_user_reconfig_refines_SReconfig.
+
+(* ================================================================ compacted logs (Node/AbsLinkCompact.v) *)
+(* p = st_logprev; G = the p entries compaction removed (any list of that length);
+   abs_logical pay G s = G ++ abstraction of the physical log;
+   wf_log_at p s: st_logprev = p, k-th physical entry has index p+1+k, st_lastidx = p + length,
+   st_lastterm = last physical entry's term if there is one, flushed <= last, p <= snapidx <= last;
+   req_agrees: wherever the snapshot covers the request (indices <= st_snapidx, which the node skips
+   without looking), the request's terms are those of the logical log, and prev_ok holds if the
+   request's previous index is covered. *)
+From Verif Require Import Node.AbsLinkCompact.
+
+Theorem link_req_agrees_intro : forall pay p G, length G = N.to_nat p -> forall s q,
+  wf_log_at p s -> consec (aq_previdx q) (aq_entries q) ->
+  (forall e, In e (aq_entries q) -> e_index e <= st_snapidx s ->
+     CfgBase.term_at (abs_logical pay G s) (N.to_nat (e_index e)) = e_term e) ->
+  (aq_previdx q <= st_snapidx s -> aq_previdx q = 0 \/
+     CfgBase.term_at (abs_logical pay G s) (N.to_nat (aq_previdx q)) = aq_prevterm q) ->
+  req_agrees pay G s q.
+Proof. exact req_agrees_intro. Qed.
+Print Assumptions link_req_agrees_intro.
+
+(* A' *)
+Theorem link_append_request_refines_recv_log_compacted : forall pay p G, length G = N.to_nat p ->
+  forall sor s q s',
+  wf_log_at p s -> consec (aq_previdx q) (aq_entries q) -> req_agrees pay G s q ->
+  on_append_request sor s q = Done (success, s') ->
+  abs_logical pay G s' = CfgBase.recv_log (abs_logical pay G s) (N.to_nat (aq_previdx q))
+                                          (map (abs_entry pay) (aq_entries q)) /\
+  st_term s <= aq_term q /\ st_term s' = aq_term q /\
+  CfgRaft.prev_ok (abs_logical pay G s) (N.to_nat (aq_previdx q)) (aq_prevterm q) = true /\
+  wf_log_at p s' /\ st_logprev s' = p /\ st_snapidx s' = st_snapidx s.
+Proof. exact append_request_refines_recv_log_compacted. Qed.
+Print Assumptions link_append_request_refines_recv_log_compacted.
+
+(* B' *)
+Theorem link_append_request_flush_rule_compacted : forall pay p G, length G = N.to_nat p ->
+  forall sor s q s',
+  wf_log_at p s -> consec (aq_previdx q) (aq_entries q) -> req_agrees pay G s q ->
+  on_append_request sor s q = Done (success, s') ->
+  N.to_nat (st_flushed s') =
+    if CfgRaft.log_eqb (abs_logical pay G s') (abs_logical pay G s) then N.to_nat (st_flushed s)
+    else length (abs_logical pay G s').
+Proof. exact append_request_flush_rule_compacted. Qed.
+Print Assumptions link_append_request_flush_rule_compacted.
+
+Theorem link_append_request_flush_exact_compacted : forall pay p G, length G = N.to_nat p ->
+  forall sor s q s',
+  wf_log_at p s -> consec (aq_previdx q) (aq_entries q) -> req_agrees pay G s q ->
+  on_append_request sor s q = Done (success, s') ->
+  (st_log s' = st_log s /\ st_flushed s' = st_flushed s) \/
+  (abs_logical pay G s' <> abs_logical pay G s /\ st_flushed s' = st_lastidx s' /\
+   st_lastidx s' = aq_previdx q + N.of_nat (length (aq_entries q))).
+Proof. exact append_request_flush_exact_compacted. Qed.
+Print Assumptions link_append_request_flush_exact_compacted.
+
+(* C', exact form *)
+Theorem link_append_request_commit_exact_compacted : forall pay p G, length G = N.to_nat p ->
+  forall sor s q s',
+  wf_log_at p s -> consec (aq_previdx q) (aq_entries q) -> req_agrees pay G s q ->
+  on_append_request sor s q = Done (success, s') ->
+  st_commit s' = st_commit s \/
+  (st_commit s' = aq_previdx q /\ st_commit s < aq_previdx q /\ aq_previdx q <= aq_commit q /\
+   aq_prevterm q = aq_term q /\ aq_previdx q <= st_lastidx s) \/
+  (st_commit s' = aq_previdx q + N.of_nat (length (aq_entries q)) /\
+   st_commit s' <= aq_commit q /\ abs_logical pay G s' <> abs_logical pay G s).
+Proof. exact append_request_commit_exact_compacted. Qed.
+Print Assumptions link_append_request_commit_exact_compacted.
+
+(* D' *)
+Theorem link_append_reject_changes_no_log_compacted : forall pay p G, length G = N.to_nat p ->
+  forall sor s q code s',
+  wf_log_at p s ->
+  on_append_request sor s q = Done (code, s') ->
+  code = staleTerm \/ code = prevEntryNotFound \/ code = prevTermMismatch ->
+  st_logprev s' = st_logprev s /\ st_log s' = st_log s /\ st_flushed s' = st_flushed s /\
+  st_lastidx s' = st_lastidx s /\ st_lastterm s' = st_lastterm s /\ st_snapidx s' = st_snapidx s /\
+  st_commit s' = st_commit s /\ st_term s' = N.max (st_term s) (aq_term q) /\
+  (code = staleTerm -> aq_term q < st_term s) /\
+  (code <> staleTerm -> st_term s <= aq_term q /\ st_snapidx s < aq_previdx q /\
+     CfgRaft.prev_ok (abs_logical pay G s) (N.to_nat (aq_previdx q)) (aq_prevterm q) = false).
+Proof. exact append_reject_changes_no_log_compacted. Qed.
+Print Assumptions link_append_reject_changes_no_log_compacted.
+
+(* the hypotheses are satisfiable, with entries skipped under the snapshot *)
+Theorem link_compacted_sample :
+  wf_log_at 1 Sample.s0 /\ consec (aq_previdx Sample.q0) (aq_entries Sample.q0) /\
+  req_agrees Sample.pay0 Sample.G0 Sample.s0 Sample.q0 /\
+  exists s', on_append_request false Sample.s0 Sample.q0 = Done (success, s') /\
+             abs_logical Sample.pay0 Sample.G0 s' =
+               [(1, CfgBase.PData 0); (1, CfgBase.PData 0); (1, CfgBase.PData 0)] /\
+             st_flushed s' = 3.
+Proof. exact Sample.compacted_sample. Qed.
+Print Assumptions link_compacted_sample.
